@@ -227,6 +227,19 @@ class Path:
             if r != z3.sat:
                 return None
             m = self.solver.model()
+            # preference: printable ASCII values for the string inputs where the path allows it (uninterpreted library
+            # functions such as the UTF-8 codec are pinned to their real values on ASCII, so such a model replays natively)
+            pref = z3.Star(z3.Range(strval(" "), strval("~")))
+            for name, (const, kind) in self.inputs.items():
+                if kind in ("str", "bytes"):
+                    self.solver.push()
+                    self.solver.add(z3.InRe(const, pref))
+                    ok = self.solver.check() == z3.sat
+                    if ok:
+                        m = self.solver.model()
+                    self.solver.pop()
+                    if ok:
+                        self.solver.add(z3.InRe(const, pref))
             # refinement: make the uninterpreted library functions (lower, capitalize) agree with CPython
             # on the chosen arguments, later applications first (they constrain the earlier ones)
             pyf = {"lower": lambda v: v.lower(), "capitalize": lambda v: v.capitalize()}
@@ -397,6 +410,8 @@ def assume(cond):
     c = z3.simplify(cond)
     if z3.is_true(c):
         return
+    from . import shape
+    shape.record_class_fact(p, cond)
     p.add(c)
     if z3.is_false(c) or p.check() == "unsat":
         raise PathEnd()
@@ -407,7 +422,7 @@ def _consts_of(e, cache):
     k = e.get_id()
     r = cache.get(k)
     if r is not None:
-        return r
+        return r[1]
     out = set()
     stack = [e]
     seen = set()
@@ -424,7 +439,7 @@ def _consts_of(e, cache):
                 stack.append(c)
         elif z3.is_quantifier(x):
             stack.append(x.body())
-    cache[k] = out
+    cache[k] = (e, out)     # the term is kept alive with its entry: ids of freed terms are reused by z3
     return out
 
 
